@@ -12,8 +12,22 @@ def isOllaError (status : Nat) (ct : String) (hdrs : List (String × String)) (b
   !(hdrs.any (fun h => h.1 == "X-Backend")) &&
   backendBodies.all (fun b => b.isEmpty || body.isEmpty || !((body.take 8).isPrefixOf b))
 
+/-- kind "xroute": Anthropic passthrough in a mixed deployment; the native endpoint A breaks off after it has begun to
+    answer. By C02_single_source / C02_no_dispatch_after_write the request is not dispatched again: B sees nothing
+    and nothing of B's is in what the client holds. -/
+def handleXroute (case : Nat) (j : Json) : IO Unit := do
+  let impl := jget j "impl"
+  if jstr (jget impl "start_err") != "" then
+    emit case false true "start-error" "" (jstr (jget impl "start_err")); return
+  let single := jnat (jget impl "b_requests") == 0 && !(jbool (jget impl "body_has_b")) && jnat (jget impl "a_requests") == 1
+  emit case single single s!"xroute.anthropic-passthrough.{jstr (jget j "engine")}.{jstr (jget j "fault")}"
+    (if single then "" else "response-mixes-attempts-or-redispatch-after-delivery")
+    (if single then "" else s!"mixed deployment, passthrough on, native endpoint fault {jstr (jget j "fault")} stream={jbool (jget j "stream")}: client status {jnat (jget impl "status")} err '{jstr (jget impl "err")}' {jnat (jget impl "body_len")} bytes, A saw {jnat (jget impl "a_requests")} request(s), B saw {jnat (jget impl "b_requests")}, B's text in the client's body: {jbool (jget impl "body_has_b")}")
+
 def handle (j : Json) : IO Unit := do
   let case := jnat (jget j "case")
+  if jstr (jget j "kind") == "xroute" then
+    handleXroute case j; return
   let sc := jget j "scenario"
   let impl := jget j "impl"
   if !(jisNull (jget impl "start_err")) && jstr (jget impl "start_err") != "" then
